@@ -37,6 +37,10 @@ type Conv struct {
 	Spec         *Spec  `json:"spec,omitempty"`
 	// Solo: do not share a package with other convs
 	Solo bool `json:"solo,omitempty"`
+	// Aux: auxiliary packages below the group's directory: directory name -> Go source.
+	Aux map[string]string `json:"aux,omitempty"`
+	// Imports of the input file, e.g. `ea "corpus/GRP/pfxea"`
+	Imports []string `json:"imports,omitempty"`
 	// filled by the builder
 	Group  string `json:"group"`
 	Name   string `json:"name"`   // interface name / variable prefix
@@ -47,7 +51,11 @@ type Conv struct {
 	GenErr string `json:"gen_err,omitempty"`
 }
 
-func (c *Conv) subst(s string) string { return strings.ReplaceAll(s, "PFX", c.Pfx) }
+func (c *Conv) subst(s string) string {
+	s = strings.ReplaceAll(s, "PFX", c.Pfx)
+	s = strings.ReplaceAll(s, "pfx", strings.ToLower(c.Pfx))
+	return strings.ReplaceAll(s, "GRP", c.Group)
+}
 
 // Corpus is a generated Go module with the converters emitted by the goverter under test.
 type Corpus struct {
@@ -185,6 +193,11 @@ func (c *Corpus) Source(group string) string {
 		sb.WriteString("import \"corpus/perr\"\n\nvar _ = perr.Wrap\n\n")
 	}
 	for _, cv := range convs {
+		for _, im := range cv.Imports {
+			fmt.Fprintf(&sb, "import %s\n", cv.subst(im))
+		}
+	}
+	for _, cv := range convs {
 		fmt.Fprintf(&sb, "// ---- %s (%s)\n", cv.ID, cv.Family)
 		sb.WriteString(cv.subst(cv.Decls))
 		sb.WriteString("\n")
@@ -247,6 +260,17 @@ func (c *Corpus) runGroup(group string) (string, error) {
 	}
 	if err := os.WriteFile(filepath.Join(dir, "input.go"), []byte(c.Source(group)), 0o644); err != nil {
 		return "", err
+	}
+	for _, cv := range c.Groups[group] {
+		for name, src := range cv.Aux {
+			ad := filepath.Join(dir, cv.subst(name))
+			if err := os.MkdirAll(ad, 0o755); err != nil {
+				return "", err
+			}
+			if err := os.WriteFile(filepath.Join(ad, "aux.go"), []byte(cv.subst(src)), 0o644); err != nil {
+				return "", err
+			}
+		}
 	}
 	before := listGo(dir)
 	args := []string{"gen"}
